@@ -182,7 +182,7 @@ def check_C06():
     q = tier() == "quick"
     sizes = {"int": 70, "float": 60, "any": None} if q else {"int": 400, "float": 400, "any": None}
     return run_direct_property("C06", None, sizes, 0, False, rows_fn=rows_parse, fams=("int", "float", "any"),
-                               decl_filter=lambda ad: ad["fam"] != "any" or ad["ty"] == "Point",
+                               decl_filter=lambda ad: ad["fam"] != "any" or ad["ty"] in ("Point", "Gen<Point>"),
                                evidence_extra={"texts": "decimal renderings of every landmark and neighbour, MIN-1/MAX+1, overflowing digit runs, signs, "
                                                "ASCII/Unicode whitespace, hex/underscore/exponent forms, NaN/inf/-0/1e400 spellings, non-ASCII digits, random text; "
                                                "each event logs the inner type's own FromStr result (environment) next to the newtype's"})
